@@ -1,6 +1,9 @@
 package frame
 
-import "io"
+import (
+	"io"
+	"time"
+)
 
 // exported views of the harness helpers for harnesses living in other packages (tlog, streamwriter, root)
 
@@ -31,3 +34,6 @@ func VerifChunkReader(data []byte, chunks []int) io.Reader {
 }
 
 func VerifIsReadError(err error) bool { return verifIsReadError(err) }
+
+// the reference instant of the deprecated frame.Writer message path
+func VerifSignatureReferenceDate() time.Time { return signatureReferenceDate }
